@@ -1,12 +1,15 @@
 #!/bin/sh
 # seed_run.sh <patch> <check ids...> : apply a seeded change to /repo, run the checks, undo it straight afterwards.
+# With SEED_APPLY=<dir> the change is applied to that scratch worktree of /repo instead and the checks are pointed at it
+# (VERIF_REPO), so that a background sweep that uses /repo is not disturbed.
 P=$1; shift
-git -C /repo apply "$P" || exit 2
+R=${SEED_APPLY:-/repo}
+git -C $R apply "$P" || exit 2
 # evidence and replays written while a seeded change is applied must not survive: keep the clean ones aside
 rm -rf /verif/.cache/evidence.keep && cp -r /verif/evidence /verif/.cache/evidence.keep
 for c in "$@"; do
-  /verif/check $c --tier ${TIER:-quick} 2>/dev/null | grep -E "VIOLATION|KNOWN|INFRA|tier=" | cut -c1-260
+  VERIF_REPO=$R /verif/check $c --tier ${TIER:-quick} 2>/dev/null | grep -E "VIOLATION|KNOWN|INFRA|tier=" | cut -c1-260
 done
-git -C /repo checkout -- .
+git -C $R checkout -- .
 rm -rf /verif/evidence && mv /verif/.cache/evidence.keep /verif/evidence
-git -C /repo status --short | head -3
+git -C $R status --short | head -3
